@@ -42,7 +42,10 @@ def gen_pair(tier, thin_only=False, max_cells=None, weights=False, solvers=("dir
         case = {"grid": g, "mass": draw(wass.mass_specs()), "opt": o}
         if weights:
             case["cweight"] = draw(st.sampled_from([0.5, 2.0, 4.0, 3.0]))
-        case["lam"] = draw(st.sampled_from([2.0, 4.0, 0.5, 3.0, 0.3]))
+        # moderate factors and far-away powers of two (tiny / huge total mass); the problem data with
+        # flux units (mobility cut-off, Bregman penalty L) are scaled along by the check
+        lams = [2.0**-36, 2.0, 2.0**-48, 0.5, 3.0, 2.0**-24, 0.3, 2.0**-12, 2.0**20]
+        case["lam"] = draw(st.sampled_from(lams))
         return case
 
     return strat()
@@ -131,10 +134,13 @@ def check_symmetry(case):
 
 
 def check_scaling(case):
-    """d(lam a, lam b) = lam d(a, b).  Newton (default cut-off) is scale-equivariant step by step, so
-    this holds for every iteration count; the Bregman iteration is equivariant when its penalty L
-    is scaled along; with L fixed only runs flagged converged are compared, loosely.  A constant
-    cell weight c multiplies the distance by c (every method)."""
+    """d(lam a, lam b) = lam d(a, b).  The mobility cut-off ("regularization", an absolute flux norm,
+    default machine eps) and the Bregman penalty L ("an approximate flux norm") are problem data in the
+    units of the flux and are scaled along; then Newton and Bregman are scale-equivariant step by step,
+    so the law holds for every iteration count.  A constant cell weight c multiplies the distance by c
+    (every method; the cut-off, which acts on the weighted flux norm, is scaled by c).  Nothing is
+    asserted when a face flux is rounding noise next to the others (weight contrast > 1e10): whether
+    such a face falls under the cut-off then depends on the last bits."""
     grid, o = dict(case["grid"]), dict(case["opt"])
     a, b = wass.make_masses(grid["shape"], case["mass"])
     lam = case["lam"]
@@ -147,33 +153,45 @@ def check_scaling(case):
     if o["method"] == "newton":
         o["L"] = None
     L0 = o["L"] if o["L"] is not None else 1.0
+    eps = float(np.finfo(float).eps)
+    far = not 2.0**-10 < lam < 2.0**10
     d1, i1, _ = _solve(grid, o, a, b, tags)
     if not np.isfinite(d1) or d1 == 0:
         return Outcome(False, _key(case), _labels(case, ("nonfinite",)), status="skipped")
-    labels = []
+    labels = ["scale-far" + ("-down" if lam < 1 else "-up")] if far else []
+    found = None
+    zero = False  # a vanishing distance for different distributions is never rounding noise
     if o["method"] == "newton":
-        d2, _, _ = _solve(grid, o, lam * a, lam * b, tags)
+        d2, _, _ = _solve(grid, o, lam * a, lam * b, tags, extra={"regularization": eps * lam})
+        zero = d2 == 0
         if not abs(d2 - lam * d1) <= 1e-7 * lam * d1:
-            raise Violation("scaling:newton", f"d({lam}a,{lam}b) = {d2!r}, {lam} d(a,b) = {lam * d1!r}", tags)
+            found = Violation("scaling:newton", f"d({lam}a,{lam}b) = {d2!r}, {lam} d(a,b) = {lam * d1!r}", tags)
         labels.append("scale-newton-exact")
     else:
         o2 = dict(o, L=L0 * lam)
         d2, _, _ = _solve(grid, dict(o, L=L0), a, b, tags)
-        d3, _, _ = _solve(grid, o2, lam * a, lam * b, tags)
+        d3, _, _ = _solve(grid, o2, lam * a, lam * b, tags, extra={"regularization": eps * lam})
+        zero = d3 == 0 and d2 != 0
         if not abs(d3 - lam * d2) <= 1e-7 * lam * abs(d2):
-            raise Violation("scaling:bregman-equivariant", f"d({lam}a,{lam}b | L={lam}L0) = {d3!r}, "
-                            f"{lam} d(a,b | L0) = {lam * d2!r}", tags)
+            found = Violation("scaling:bregman-equivariant", f"d({lam}a,{lam}b | L={lam}L0) = {d3!r}, "
+                              f"{lam} d(a,b | L0) = {lam * d2!r}", tags)
         labels.append("scale-bregman-equivariant")
         # at fixed L nothing is asserted: L "represents an approximate flux norm" (docstring); for
         # data much smaller than L the shrinkage removes the whole auxiliary flux, the iteration
         # stalls at the Darcy-like initial flux and is flagged converged there (observed 13 % off)
     c = case.get("cweight")
-    if c is not None:
+    if c is not None and found is None:
         wimg = wass.make_weight(grid, {"kind": "const", "value": c})
-        d5, _, _ = _solve(grid, o, a, b, tags, weight=wimg)
+        d5, _, _ = _solve(grid, o, a, b, tags, weight=wimg, extra={"regularization": eps * c})
+        zero = d5 == 0
         if not abs(d5 - c * d1) <= 1e-7 * c * d1:
-            raise Violation("scaling:weight", f"constant weight {c}: d = {d5!r}, expected {c * d1!r}", tags)
+            found = Violation("scaling:weight", f"constant weight {c}: d = {d5!r}, expected {c * d1!r}", tags)
         labels.append("const-weight")
+    if found is not None:
+        if tags.get("mobility_contrast", 1.0) > 1e10 and not zero:
+            return Outcome(False, _key(case, (lam, c)), _labels(case, labels + ["noise-level-flux-not-asserted"]),
+                           status="skipped")
+        raise found
     return Outcome(_nontrivial(case, a, b), _key(case, (lam, c)), _labels(case, labels))
 
 
